@@ -28,6 +28,62 @@ func checkC02(c *Ctx, r *Report) {
 	r.rule("C02.NATIVE", "the Go list carriers the library walks itself (frozen table: []interface{} and slices of string, int, int64, bool, float32, float64, time.Time) are excluded by a failed type test (or a failed reflect Kind()==Slice test) on every path to AnyResolver.Len/Nth, so the same data gives the same list whichever strategy backs the graph")
 	nativeListRule(c, r, a, "C02.NATIVE", "a root resolver that understands only its own containers reports length 0, so the root-resolver strategy returns an empty list where the interface and reflection strategies return the elements")
 	c02Pipe(c, r, a)
+	cacheVerdictRule(c, r, a, "C02.CACHE", "the reflection strategy then answers with an error (and null) for a node whose GraphQL type was first seen with another Go type, where the interface and root-resolver strategies answer with the data")
+}
+
+// cacheVerdictRule: the lazily discovered reflection binding of an object type (Object.meta) is a
+// cache. A request-time caller of a function that writes it must not let that function's error
+// decide the response: the error says "this type was first seen with another Go type", which depends
+// on the history of earlier requests, not on the request.
+func cacheVerdictRule(c *Ctx, r *Report, a *Anchors, rule, consequence string) {
+	r.rule(rule, "request-time callers of the functions that write the lazily cached Go-type binding (Object.meta) discard their error result: the cache's verdict about earlier requests never reaches the response")
+	writers := map[*ssa.Function]bool{}
+	for _, fn := range c.allFns {
+		if res := fn.Signature.Results(); res.Len() != 1 || !isErrorType(res.At(0).Type()) {
+			continue
+		}
+		for _, b := range fn.Blocks {
+			for _, in := range b.Instrs {
+				if st, ok := in.(*ssa.Store); ok {
+					if fa, ok := st.Addr.(*ssa.FieldAddr); ok {
+						if o, f := fieldOwner(fa.X.Type(), fa.Field); o == "Object" && f == "meta" {
+							writers[fn] = true
+						}
+					}
+				}
+			}
+		}
+	}
+	n := 0
+	var fns []*ssa.Function
+	for f := range a.reach {
+		if c.inPkg(f) {
+			fns = append(fns, f)
+		}
+	}
+	sort.Slice(fns, func(i, j int) bool { return fnName(fns[i]) < fnName(fns[j]) })
+	for _, fn := range fns {
+		k := 0
+		for _, ci := range callsIn(fn) {
+			cal := ci.Common().StaticCallee()
+			if cal == nil || !writers[cal] {
+				continue
+			}
+			n++
+			k++
+			used := false
+			if v, ok := ci.(ssa.Value); ok && v.Referrers() != nil {
+				for _, ref := range *v.Referrers() {
+					if _, isDbg := ref.(*ssa.DebugRef); !isDbg {
+						used = true
+					}
+				}
+			}
+			r.check(rule, fmt.Sprintf("%s: call #%d of %s ignores the cache's error", fnName(fn), k, fnName(cal)), ci.Pos(), !used,
+				"the error of the lazy binding (the type is already bound to a different Go type) is used at request time: "+consequence)
+		}
+	}
+	r.floor(rule, "request-time calls of the lazy binding writers", n, 1)
 }
 
 // anyResolverField: v is a load of Root.AnyResolver
